@@ -311,20 +311,61 @@ def fam_wrappers(tier, seed):
         yield dict(fam='wrappers', solver=w, which=w, ndim=2, cost=cost, seed=seed + 14, maxiter=mi, maxfun=mf, key=[mi, mf, cost])
 
 
+def run_collapse(sc):
+    """Solve with a collapse condition next to an ordinary one and a generation limit: it returns (a collapse that is
+    applied must not be reported again and again), within the limit"""
+    import io
+    import mystic.solvers as ms
+    from mystic.termination import Or, VTR, CollapseAt, CollapseAs, ChangeOverGeneration
+    seed_all(sc['seed'])
+    n = 4
+    mask = None if sc['mask'] == 'None' else set() if sc['mask'] == 'empty' else ({2} if sc['kind'] == 'at' else {(2, 3)})
+    cond = CollapseAt(sc['target'], generations=10, mask=mask) if sc['kind'] == 'at' else CollapseAs(generations=10, mask=mask)
+    # a cost whose minimiser has x0 = x1 = 0 (both collapse at 0 and onto each other) and distinct other coordinates
+    cost = lambda x: float(x[0]) ** 2 + float(x[1]) ** 2 + (float(x[2]) - 1.0) ** 2 + (float(x[3]) + 2.0) ** 2      # noqa: E731
+    s = getattr(ms, sc['solver'])(n) if sc['solver'] != 'DifferentialEvolutionSolver' else ms.DifferentialEvolutionSolver(n, 12)
+    if sc['solver'] == 'DifferentialEvolutionSolver':
+        s.SetRandomInitialPoints([-3.0] * n, [3.0] * n)
+    else:
+        s.SetInitialPoints([0.5, -0.25, 2.0, 1.0])
+    s.SetEvaluationLimits(generations=sc['limit'])
+    s.SetTermination(Or(cond, ChangeOverGeneration(1e-12, 40)))
+    viol, aborted = [], None
+    try:
+        with guard(20), contextlib.redirect_stdout(io.StringIO()):
+            s.Solve(cost, disp=False)
+    except _Timeout:
+        viol.append(('solve-returns', 'Solve with %s(mask=%s) did not return within 20 s of CPU time (generations=%r of limit %r)'
+                     % ('CollapseAt' if sc['kind'] == 'at' else 'CollapseAs', sc['mask'], s.generations, sc['limit'])))
+    except Exception as e:      # noqa -- an exception is not what C05 is about
+        aborted = 'collapse: %s: %s' % (type(e).__name__, e)
+    if not viol and aborted is None and s.generations > sc['limit']:
+        viol.append(('generations-within-limit', 'generations=%r limit=%r' % (s.generations, sc['limit'])))
+    return {'violations': viol, 'begun': s.generations, 'calls': s.evaluations, 'aborted': aborted}
+
+
+def fam_collapse(tier, seed):
+    solvers = ['NelderMeadSimplexSolver', 'PowellDirectionalSolver'] + (['DifferentialEvolutionSolver'] if tier != 'quick' else [])
+    for solver, kind, mask, target in itertools.product(solvers, ['at', 'as'], ['None', 'empty', 'preset'], [0.0]):
+        yield dict(fam='collapse', solver=solver, kind=kind, mask=mask, target=target, limit=150, seed=seed + 21, key=[kind, mask])
+
+
 def _work(sc):
+    if sc['fam'] == 'collapse':
+        return {'sc': sc, 'r': run_collapse(sc)}
     return {'sc': sc, 'r': (run_wrapper if sc['fam'] == 'wrappers' else run_seq)(sc)}
 
 
 def run(tier='quick', seed=0):
     scs = list(fam_limits(tier)) + list(fam_exit(tier)) + list(fam_term(tier)) + \
-        list(fam_random(tier, seed * 1000003 + 5)) + list(fam_wrappers(tier, seed))
+        list(fam_random(tier, seed * 1000003 + 5)) + list(fam_wrappers(tier, seed)) + list(fam_collapse(tier, seed))
     res = Result(rule='families: limits = ALL (g, e) in {0,1,2,7,None}^2 x new x position p in {0,1,2,3,5} at which the limits '
                       'are (re)set x {Step-loop, Solve} x 4 solvers, each followed by a second Solve on the finished solver, '
                       'new=True limits and a third Solve; exit = exit requested after k = 0..5 steps (flag set as '
                       '_signal.Handler does; between Steps, or from the callback inside Solve); termination = 9 conditions '
                       '(VTR, ChangeOverGeneration windows 1-3, Or/And, never-true) set at step 0/2; random = seeded sequences of '
                       'step/run/solve/limits/term/exit/penalty; wrappers = fmin, fmin_powell, diffev, diffev2 with full_output=1 '
-                      'over all (maxiter, maxfun) pairs.  Stop conditions are evaluated by the shadow each time an iteration '
+                      'over all (maxiter, maxfun) pairs; collapse = Solve under Or(CollapseAt / CollapseAs with mask None / empty / preset, ChangeOverGeneration) with a generation limit must return.  Stop conditions are evaluated by the shadow each time an iteration '
                       'begins; distinct = (family, solver, parameters) in which >= 1 iteration was begun',
                  bound='%d scenarios; limits in {0,1,2,7,None}, <= 14 steps per Step-loop, dims 1-3, Solve guarded at 20 s' % len(scs))
     for out in pmap(_work, scs):
@@ -344,4 +385,6 @@ def run(tier='quick', seed=0):
 
 
 def replay(inp):
+    if inp['fam'] == 'collapse':
+        return not run_collapse(inp)['violations']
     return not (run_wrapper if inp['fam'] == 'wrappers' else run_seq)(inp)['violations']
